@@ -1,4 +1,4 @@
-import JivaVerif.Model.Crash
+import JivaVerif.Model.CrashFail
 /-! Driver for the crash model: prints the call sequence of an operation in the canonical form in
 which `crashdiff` renders an `strace` trace of the real operation. -/
 namespace Jiva.Drv
@@ -20,6 +20,10 @@ def callText : Call → String
   | .fsyncDir => "fsync ."
   | .truncate k => "truncate " ++ keyName k
 
+def traceText (p : Prog) (f : Option Nat) : String :=
+  ";".intercalate ((trace p f).map fun (c, ok) => (if ok then "" else "!") ++ callText c) ++
+    " => " ++ (if (flow p f).2 then "ok" else "err")
+
 partial def crashLoop (h : IO.FS.Stream) (out : IO.FS.Stream) : IO Unit := do
   let line ← h.getLine
   if line.isEmpty then return ()
@@ -32,6 +36,14 @@ partial def crashLoop (h : IO.FS.Stream) (out : IO.FS.Stream) : IO Unit := do
     out.putStrLn (";".intercalate ((removeProg name child parent (dash grand)).map callText))
   | ["revert", oldHead, newHead, target] =>
     out.putStrLn (";".intercalate ((revertProg oldHead newHead target 0).map callText))
+  -- the same operations with one failing call: `… fail <n>` prints every call issued (the failing
+  -- one marked `!`) and the result
+  | ["snapshot", oldHead, newHead, snap, oldParent, "fail", n] =>
+    out.putStrLn (traceText (snapshotE oldHead newHead snap (dash oldParent) 0) n.toNat?)
+  | ["remove", name, child, parent, grand, "fail", n] =>
+    out.putStrLn (traceText (removeE name child parent (dash grand)) n.toNat?)
+  | ["revert", oldHead, newHead, target, "fail", n] =>
+    out.putStrLn (traceText (revertE oldHead newHead target 0) n.toNat?)
   | _ => out.putStrLn "bad-op"
   crashLoop h out
 
